@@ -171,7 +171,11 @@ func cmdCheck(args []string) (status int) {
 		}
 	}
 	if *tier == "thorough" && *mutant == "" && os.Getenv("NASVERIF_NO_SELFTEST") == "" {
-		if st := runSelftestFor(id, r); st != 0 && len(r.Findings) == 0 {
+		st := runSelftestFor(id, r)
+		if st2 := runPatchesFor(id, r); st2 != 0 {
+			st = st2
+		}
+		if st != 0 && len(r.Findings) == 0 {
 			r.Emit(*tier, seed, start, *noEv)
 			return st
 		}
